@@ -203,7 +203,7 @@ func genCase(t *rapid.T) Case {
 	c := Case{
 		Kind:  rapid.SampledFrom([]string{"handles", "handles", "handles", "handles", "btree", "btree", "btree", "fwriter", "smart", "smart"}).Draw(t, "kind"),
 		Procs: rapid.SampledFrom([]int{1, 2, 4, 16}).Draw(t, "procs"),
-		Reps:  rapid.IntRange(1, 3).Draw(t, "reps"),
+		Reps:  rapid.IntRange(1, vt.N(3, 4)).Draw(t, "reps"),
 	}
 	switch c.Kind {
 	case "handles":
@@ -389,8 +389,8 @@ func execute(c Case, factor int) childResult {
 		}
 	}
 	limit := int64(-1)
-	if res.out != nil && res.out.Panic != nil {
-		limit = res.out.Panic.RaceLogBytes
+	if res.out != nil {
+		limit = res.out.RaceLogCut
 	}
 	res.races = readRaceLogs(racePrefix, limit)
 	return res
@@ -424,6 +424,8 @@ func (c Case) labels() []string {
 	return []string{"kind=" + c.Kind, fmt.Sprintf("N=%d", len(c.Threads)), fmt.Sprintf("procs=%d", c.Procs)}
 }
 
+// evaluate runs one program (in a child process, with one confirmation run where the rules ask for it) and
+// turns what was observed into a verdict plus measured labels.
 func evaluate(c Case) evaluation {
 	t0 := time.Now()
 	defer func() {
@@ -442,7 +444,7 @@ func evaluate(c Case) evaluation {
 	res := execute(c, 1)
 	races := res.races
 	var bad []string
-	confirm := func(first childResult) *childResult {
+	confirm := func() *childResult {
 		// a hang, a crash or a timeout is re-tried once, alone, with three times the bounds, before it counts
 		second := execute(c, 3)
 		races = append(races, second.races...)
@@ -450,7 +452,7 @@ func evaluate(c Case) evaluation {
 	}
 	switch {
 	case res.out != nil && res.out.Hang != nil:
-		second := confirm(res)
+		second := confirm()
 		if second.out != nil && second.out.Hang != nil {
 			h := second.out.Hang
 			d := fmt.Sprintf("%s did not return (twice: bounds %+v, then %+v; thread %d, phase %s); goroutines inside the library: %v\n%s", h.Op,
@@ -471,7 +473,7 @@ func evaluate(c Case) evaluation {
 			res = *second
 		}
 	case res.out == nil:
-		second := confirm(res)
+		second := confirm()
 		if second.out == nil {
 			crash := second.stderr
 			if second.timedOut {
